@@ -35,11 +35,22 @@ func c17Bounded(ck *Checker, rep *Report, opts *Options) {
 	if opts.Tier == "thorough" {
 		k = "10"
 	}
-	scratch := filepath.Join(opts.Scratch, "c17")
+	runBounded(rep, opts, "c17", map[string]string{
+		"internal/shellparse/zz_verif_rt_test.go": "harness/c17_shellparse_test.go",
+		"xtool/safesplit/zz_verif_rt_test.go":     "harness/c17_safesplit_test.go",
+	}, []string{"./internal/shellparse/", "./xtool/safesplit/"}, "TestZZVerifRoundTrip", []string{"VERIF_C17_K=" + k}, 2,
+		"roundtrip", "quoted form of at most K="+k+" characters over a 10-symbol alphabet (letter, blank, tab, both quotes, backslash, '-', '$', two non-ASCII runes incl. one whose UTF-8 form contains the byte 0xA0); shellparse: both always-quoted and quoted-only-when-needed forms")
+}
+
+// runBounded runs bounded harness tests injected into /repo packages through
+// go test -overlay and turns their ZZBOUNDED / ZZFAIL lines into evidence and
+// (for failures) violations carrying the failing inputs.
+func runBounded(rep *Report, opts *Options, tag string, files map[string]string, pkgs []string, run string, env []string, expect int, checkName, boundDesc string) {
+	scratch := filepath.Join(opts.Scratch, tag)
 	os.MkdirAll(scratch, 0o755)
-	repl := map[string]string{
-		filepath.Join(opts.RepoDir, "internal/shellparse/zz_verif_rt_test.go"): filepath.Join(opts.VerifDir, "harness/c17_shellparse_test.go"),
-		filepath.Join(opts.RepoDir, "xtool/safesplit/zz_verif_rt_test.go"):     filepath.Join(opts.VerifDir, "harness/c17_safesplit_test.go"),
+	repl := map[string]string{}
+	for a, b := range files {
+		repl[filepath.Join(opts.RepoDir, a)] = filepath.Join(opts.VerifDir, b)
 	}
 	for a, b := range opts.OverlayFiles {
 		repl[a] = b
@@ -61,15 +72,16 @@ func c17Bounded(ck *Checker, rep *Report, opts *Options) {
 	if gobin == "" {
 		gobin = "go"
 	}
-	cmd := exec.Command(gobin, "test", "-overlay", ov, "-vet=off", "-count=1", "-v", "-timeout", "1200s", "-run", "TestZZVerifRoundTrip", "./internal/shellparse/", "./xtool/safesplit/")
+	args := append([]string{"test", "-overlay", ov, "-vet=off", "-count=1", "-v", "-timeout", "1200s", "-run", run}, pkgs...)
+	cmd := exec.Command(gobin, args...)
 	cmd.Dir = opts.RepoDir
-	cmd.Env = append(os.Environ(), "VERIF_C17_K="+k)
+	cmd.Env = append(os.Environ(), env...)
 	out, _ := cmd.CombinedOutput()
 	text := string(out)
-	re := regexp.MustCompile(`ZZBOUNDED (\w+) K=(\d+) lists=(\d+)(?: maxquoted=\d+)? failures=(\d+)`)
+	re := regexp.MustCompile(`ZZBOUNDED (\w+) (?:K|types)=(\d+) (?:lists|pairs)=(\d+)(?: maxquoted=\d+)? failures=(\d+)`)
 	ms := re.FindAllStringSubmatch(text, -1)
-	if len(ms) != 2 {
-		rep.Broken = append(rep.Broken, "C17 bounded harness did not run: "+truncate(text, 1500))
+	if len(ms) != expect {
+		rep.Broken = append(rep.Broken, tag+" bounded harness did not run: "+truncate(text, 1500))
 		return
 	}
 	var fails []string
@@ -79,15 +91,11 @@ func c17Bounded(ck *Checker, rep *Report, opts *Options) {
 		}
 	}
 	for _, m := range ms {
-		entry := map[string]interface{}{"check": "roundtrip[" + m[1] + "]", "bound": "quoted form of at most K=" + m[2] + " characters over a 9-symbol alphabet (letters, blank, tab, both quotes, backslash, '-', '$', non-ASCII)",
-			"argument_lists_run": m[3], "failures": m[4], "kind": "bounded exhaustive execution of the real function (not a proof)"}
+		entry := map[string]interface{}{"check": checkName + "[" + m[1] + "]", "bound": boundDesc,
+			"cases_run": m[3], "failures": m[4], "kind": "bounded exhaustive execution of the real function (not a proof)"}
 		rep.Bounded = append(rep.Bounded, entry)
 		if m[4] != "0" {
-			var mine []string
-			for _, f := range fails {
-				mine = append(mine, f)
-			}
-			rep.BoundedFail = append(rep.BoundedFail, BoundedFailure{Name: "bounded.roundtrip[" + m[1] + "]", Inputs: mine})
+			rep.BoundedFail = append(rep.BoundedFail, BoundedFailure{Name: "bounded." + checkName + "[" + m[1] + "]", Inputs: fails})
 		}
 	}
 }
